@@ -115,3 +115,30 @@ def eval_kernel(repo: Repo, fi: FuncInfo, **kw: Any) -> Env:
 
 def cell(array: str, *idx: int) -> Poly:
     return Poly.atom(("cell", array, tuple(Poly.const(i) for i in idx)))
+
+
+def py_calls(ev: Evaluator, env: Env, n: ast.Call) -> Any:
+    """Summaries of a few library calls used by pure-Python repository code:
+    `check_int_range(v, ...)`/`check_to_int_range` return v (or raise),
+    `len(a)` is the symbolic length of `a`."""
+    f = n.func
+    name = f.id if isinstance(f, ast.Name) else (
+        f.attr if isinstance(f, ast.Attribute) else None)
+    if name in ("check_int_range", "check_to_int_range") and n.args:
+        return ev.expr(env, n.args[0])
+    if isinstance(f, ast.Name) and f.id == "len" and len(n.args) == 1:
+        a = n.args[0]
+        if isinstance(a, ast.Name):
+            b = env.vars.get(a.id)
+            nm = a.id
+            if isinstance(b, Poly) and b.as_atom() and \
+                    b.as_atom()[0] == "var":
+                nm = b.as_atom()[1]
+            elif isinstance(b, tuple) and b and b[0] == "array":
+                nm = b[1]
+            elif b is not None:
+                return NotImplemented
+            return Poly.atom(("app", "len", (Poly.var(nm),)))
+        if isinstance(a, ast.Attribute):
+            return Poly.atom(("app", "len", (Poly.var(ast.unparse(a)),)))
+    return NotImplemented
